@@ -318,6 +318,11 @@ def _run_args(res: core.Res, case: Dict[str, Any]) -> None:
                 lines.append(f'    {name} : {cls_}')
                 lines.append(f'        {next(tok)} {next(tok)}')
         doc = '\n'.join(lines) + '\n'
+        if j % 10 == 0:
+            # a reST docstring that *starts* with its field list, using field names docutils knows as bibliographic fields
+            fmt = 'restructuredtext'
+            doc = ''.join(f':{nm}: {next(tok)} {next(tok)}\n' for nm in r.sample(['author', 'version', 'date', 'copyright', 'organization', 'status', 'contact', 'authors'], 4)) + \
+                f':param a: {next(tok)}\n:note: {next(tok)}\n'
         try:
             system, html = _render(doc, fmt)
         except Exception as e:  # noqa: BLE001 -- C08's business
